@@ -92,6 +92,30 @@ where
         trace!("from sink: {message:?}");
         if let Message::Handshake(sink) = message {
             let n = sources.len();
+            if n == 0 {
+                // nothing to concatenate: greet the sink, then complete it (unless it has disposed
+                // in the meantime)
+                let disposed = Arc::new(AtomicBool::new(false));
+                call!(
+                    sink,
+                    Message::Handshake(Arc::new(
+                        {
+                            let disposed = Arc::clone(&disposed);
+                            move |message| {
+                                if let Message::Error(_) | Message::Terminate = message {
+                                    disposed.store(true, AtomicOrdering::Release);
+                                }
+                            }
+                        }
+                        .into()
+                    )),
+                    "to sink: {message:?}"
+                );
+                if !disposed.load(AtomicOrdering::Acquire) {
+                    call!(sink, Message::Terminate, "to sink: {message:?}");
+                }
+                return;
+            }
             let i = Arc::new(AtomicUsize::new(0));
             let source_talkback: Arc<ArcSwapOption<Source<T>>> =
                 Arc::new(ArcSwapOption::from(None));
